@@ -18,6 +18,8 @@ EXTENDS Props
 CONSTANTS
     NSys,        \* pre-spawned system commands 1..NSys
     NOnce,       \* slots for one-off reactors NSys+1..NSys+NOnce
+    NW,          \* world reactors (0..2): systems NSys+NOnce+1..          [world_reactor.rs]
+    NER,         \* entity world reactors (0..1): system NSys+NOnce+NW+1   [entity_world_reactor.rs]
     NEnt,        \* pre-spawned plain entities 1..NEnt
     NTy,         \* tag types per family (1 or 2)
     NVal,        \* component / resource values 1..NVal
@@ -32,13 +34,15 @@ CONSTANTS
     Features,    \* subset of {"err","notake","take2"}
     Defects,     \* subset of {"swap_remove","append_after","nested_first","insert_dead"} : re-introduced defects
     Mutants,     \* model mutants for monitor sensitivity (see MC*.cfg)
-    Scripted,    \* TRUE: take ops from Prog
-    Prog         \* [steps |-> <<...>>, scripts |-> <<...>>] when Scripted
+    Scripted     \* TRUE: take ops from the program stored in the world (w.prog = [steps, scripts]); see TraceConf.tla
 
 VARIABLES w, out
 cvars == <<w, out>>
 
-Sys == 1..(NSys + NOnce)
+Sys == 1..(NSys + NOnce + NW + NER)
+WSysC(i) == NSys + NOnce + i
+EWSysC == NSys + NOnce + NW + 1
+WorldSys == (NSys + NOnce + 1)..(NSys + NOnce + NW + NER)
 Ents == 1..NEnt
 Tys == 1..NTy
 
@@ -58,8 +62,9 @@ Cmd0 == [c |-> "", s |-> 0, e |-> 0, ty |-> 0, p |-> 0, d |-> 0, h |-> 0, rk |->
 (* initial world *)
 
 WInit ==
-    [ alive |-> 1..NSys, aliveE |-> Ents, spawned |-> {},
-      storage |-> [ s \in Sys |-> IF s <= NSys THEN "idle" ELSE "absent" ],
+    [ alive |-> (1..NSys) \cup WorldSys, aliveE |-> Ents, spawned |-> {},
+      storage |-> [ s \in Sys |-> IF s <= NSys \/ s \in WorldSys THEN "idle" ELSE "absent" ],
+      elocal |-> [ e \in Ents |-> 0 ], hasER |-> {},
       reg |-> <<>>,                 \* [s, kd, ty, e, h] in registration order      [react_cache.rs, utils.rs:EntityReactors]
       rc |-> <<>>, hs |-> <<>>, nextH |-> 1,   \* handle instance -> strong count / system         [auto_despawn.rs]
       gcChan |-> <<>>,
@@ -78,9 +83,9 @@ WInit ==
       budget |-> Budget, step |-> 0,
       tok |-> <<>>, oncetok |-> <<>>, armed |-> {},
       sysmode |-> [ s \in Sys |-> 0 ], regd |-> {}, onceUsed |-> 0,
-      done |-> FALSE ]
+      prog |-> [steps |-> <<>>, scripts |-> <<>>] ]
 
-CfgRec == [t |-> "cfg", nsys |-> NSys, nonce |-> NOnce, nent |-> NEnt, nworld |-> 0, neworld |-> 0,
+CfgRec == [t |-> "cfg", nsys |-> NSys, nonce |-> NOnce, nent |-> NEnt, nworld |-> NW, neworld |-> NER,
            kinds |-> [ i \in 1..NSys |-> "plain" ]]
 
 ----------------------------------------------------------------------------
@@ -123,7 +128,8 @@ RegisterW(x, s, b, rcmode) ==
                               x.tracked, b)
         x1 == [x EXCEPT !.reg = @ \o ents,
                         !.tracked = newtracked,
-                        !.trk = @ \cup { KeyOf(eff[i]).e : i \in { j \in 1..Len(eff) : KeyOf(eff[j]).kd = "desp" } }]
+                        !.trk = @ \cup { KeyOf(eff[i]).e : i \in { j \in 1..Len(eff) : KeyOf(eff[j]).kd = "desp" } },
+                        !.hasER = @ \cup { KeyOf(eff[i]).e : i \in { j \in 1..Len(eff) : KeyOf(eff[j]).kd \in EntKinds } }]
     IN IF ~rcmode THEN x1
        ELSE IF Len(eff) = 0
             THEN [x1 EXCEPT !.nextH = @ + 1, !.rc = Put(@, h, 0), !.hs = Put(@, h, s), !.gcChan = Append(@, s)]
@@ -160,7 +166,7 @@ KillEntW(x, e) ==
                              !.remLog = [ c \in 1..2 |-> IF x.comp[<<e, c>>] # 0 THEN Append(@[c], e) ELSE @[c] ],
                              !.comp = [ k \in DOMAIN @ |-> IF k[1] = e THEN 0 ELSE @[k] ],
                              !.despChan = IF e \in x.trk THEN Append(@, e) ELSE @,
-                             !.trk = @ \ {e}]
+                             !.trk = @ \ {e}, !.elocal[e] = 0, !.hasER = @ \ {e}]
          IN DecAll(x1, MapSeq(gone, LAMBDA y : y.h))
 
 ----------------------------------------------------------------------------
@@ -341,6 +347,22 @@ OpEffect(x, op, ret) ==
             IN [w |-> RegisterW(x1, op[2], op[3], TRUE), out |-> <<>>, q |-> <<>>]
       [] n = "revoke" -> [w |-> RevokeW(x, x.tok[op[2]].s, x.tok[op[2]].b), out |-> <<>>, q |-> <<>>]
       [] n = "probe" -> [w |-> x, out |-> <<>>, q |-> <<>>]
+      [] n = "wadd" -> [w |-> RegisterW(x, WSysC(op[2]), op[3], FALSE), out |-> <<>>, q |-> <<>>]
+      [] n = "wrem" -> [w |-> RevokeW(x, WSysC(op[2]), op[3]), out |-> <<>>, q |-> <<>>]
+      [] n = "wrun" -> [w |-> x, out |-> <<>>, q |-> << [Cmd0 EXCEPT !.c = "run", !.s = WSysC(op[2])] >>]
+      [] n = "eadd" ->
+            IF ret # 1 THEN [w |-> x, out |-> <<>>, q |-> <<>>]
+            ELSE LET x1 == IF op[3] \in x.aliveE THEN [x EXCEPT !.elocal[op[3]] = op[4]] ELSE x
+                 IN [w |-> RegisterW(x1, EWSysC, << <<"emut", op[3], 1>>, <<"eev", op[3], 1>> >>, FALSE), out |-> <<>>, q |-> <<>>]
+      [] n = "erem" ->
+            (* revoke, then drop the local data of every entity named that no longer tracks this reactor [cleanup_reactor_data] *)
+            LET x1 == RevokeW(x, EWSysC, op[3])
+                ents == { KeyOf(op[3][i]).e : i \in DOMAIN op[3] } \ {0}
+                keep(e) == \E y \in Range(x1.reg) : y.s = EWSysC /\ y.kd \in EntKinds /\ y.e = e
+                inv == "ew_cleanup_inverted" \in Mutants
+            IN [w |-> [x1 EXCEPT !.elocal = [ e \in DOMAIN @ |->
+                            IF e \in ents /\ e \in x1.aliveE /\ e \in x1.hasER /\ (IF inv THEN keep(e) ELSE ~keep(e)) THEN 0 ELSE @[e] ]],
+                out |-> <<>>, q |-> <<>>]
       [] OTHER -> [w |-> x, out |-> <<>>, q |-> <<>>]
 
 ExecOp(x, it) ==
@@ -479,13 +501,20 @@ IssueW(x, op) ==
                              !.nextTok = IF op[5] >= @ THEN op[5] + 1 ELSE @,
                              !.sysmode[op[3]] = IF op[2] = "persistent" THEN 1 ELSE 2,
                              !.regd = @ \cup { <<op[3], op[4][j]>> : j \in DOMAIN op[4] }], ret |-> 0]
+      [] n \in {"wadd"} -> [w |-> [x EXCEPT !.regd = @ \cup { <<WSysC(op[2]), op[3][j]>> : j \in DOMAIN op[3] }], ret |-> 1]
+      [] n \in {"wrem", "wrun", "erem"} -> [w |-> x, ret |-> 1]
+      [] n = "eadd" -> [w |-> [x EXCEPT !.regd = @ \cup {<<EWSysC, <<"emut", op[3], 1>>>>}], ret |-> IF op[3] \in x.aliveE THEN 1 ELSE 0]
+      [] n = "setlocal" ->
+            LET ok == x.er.reacting /\ x.er.sys = EWSysC /\ x.er.src \in Ents /\ x.elocal[x.er.src] # 0
+            IN IF ok THEN [w |-> [x EXCEPT !.elocal[x.er.src] = op[2]], ret |-> 1] ELSE [w |-> x, ret |-> 0]
       [] n = "once" ->
             [w |-> [x EXCEPT !.tok = Put(@, op[4], [s |-> op[2], b |-> op[3]]), !.oncetok = Put(@, op[2], op[3]),
                              !.nextTok = IF op[4] >= @ THEN op[4] + 1 ELSE @, !.onceUsed = @ + 1], ret |-> 0]
       [] OTHER -> [w |-> x, ret |-> 0]
 
 (* the ops a free body may issue next; `go(op)` is the continuation *)
-FreeOp(x, go(_)) ==
+EBundles(e) == { << <<"emut", e, 1>> >>, << <<"eev", e, 1>> >>, << <<"emut", e, 1>>, <<"eev", e, 1>> >> }
+FreeOp(x, cur, go(_)) ==
     \/ "run" \in OpNames /\ \E s \in Targets(x) : go(<<"run", s>>)
     \/ "sysev" \in OpNames /\ \E s \in Targets(x) : go(<<"sysev", s, x.nextP>>)
     \/ "bc" \in OpNames /\ \E t \in Tys : go(<<"bc", t, x.nextP>>)
@@ -509,8 +538,14 @@ FreeOp(x, go(_)) ==
     \/ "once" \in OpNames /\ x.onceUsed < NOnce /\ \E b \in Bundles : go(<<"once", NSys + x.onceUsed + 1, b, x.nextTok>>)
     \/ "revoke" \in OpNames /\ \E k \in DOMAIN x.tok : go(<<"revoke", k>>)
     \/ "probe" \in OpNames /\ go(<<"probe">>)
+    \/ "wadd" \in OpNames /\ \E i \in 1..NW, b \in Bundles : (\A j \in DOMAIN b : <<WSysC(i), b[j]>> \notin x.regd) /\ Len(b) > 0 /\ go(<<"wadd", i, b>>)
+    \/ "wrem" \in OpNames /\ \E i \in 1..NW, b \in Bundles : Len(b) > 0 /\ go(<<"wrem", i, b>>)
+    \/ "wrun" \in OpNames /\ \E i \in 1..NW : go(<<"wrun", i>>)
+    \/ "eadd" \in OpNames /\ NER > 0 /\ cur # EWSysC /\ \E e \in Ents, v \in 1..NVal : <<EWSysC, <<"emut", e, 1>>>> \notin x.regd /\ go(<<"eadd", 1, e, v>>)
+    \/ "erem" \in OpNames /\ NER > 0 /\ cur # EWSysC /\ \E e \in Ents : \E b \in EBundles(e) : go(<<"erem", 1, b>>)
+    \/ "setlocal" \in OpNames /\ NER > 0 /\ cur = EWSysC /\ \E v \in 1..NVal : go(<<"setlocal", v>>)
 
-ScriptOf(r) == IF r <= Len(Prog.scripts) THEN Prog.scripts[r] ELSE [ops |-> <<>>, err |-> FALSE, notake |-> FALSE, take2 |-> FALSE]
+ScriptOf(r) == IF r <= Len(w.prog.scripts) THEN w.prog.scripts[r] ELSE [ops |-> <<>>, err |-> FALSE, notake |-> FALSE, take2 |-> FALSE]
 
 (* first step of a body: the `run` record (readers sampled) *)
 RBodyStart(x, fr, nt, t2) ==
@@ -518,8 +553,11 @@ RBodyStart(x, fr, nt, t2) ==
         v == ViewW(x, nt = 0)
         n == x.runs[fr.s] + 1
         twice == IF t2 = 1 /\ v.took # <<>> /\ "take_twice_ok" \in Mutants THEN << <<"se2", 1, 0, 0>> >> ELSE <<>>
+        el == IF NER = 0 \/ fr.s # EWSysC THEN <<0, 0>>
+              ELSE IF x.er.reacting /\ x.er.sys = EWSysC /\ x.er.src \in Ents /\ x.elocal[x.er.src] # 0
+                   THEN <<x.er.src, IF "ew_wrong_local" \in Mutants THEN 0 ELSE x.elocal[x.er.src]>> ELSE <<-1, -1>>
         rec == [t |-> "run", r |-> r, sys |-> fr.s, local |-> IF "local_reset" \in Mutants THEN 1 ELSE n, cap |-> n,
-                view |-> v.view \o twice, nt |-> nt, t2 |-> t2, el |-> <<0, 0>>]
+                view |-> v.view \o twice, nt |-> nt, t2 |-> t2, el |-> el]
         x1 == [v.w EXCEPT !.nextR = @ + 1, !.runs[fr.s] = n]
     IN [w |-> SetTopF(x1, [fr EXCEPT !.r = r, !.started = TRUE, !.nt = nt, !.t2 = t2]),
         \* the harness takes the payload (records taken, drop) before it logs the run
@@ -535,7 +573,8 @@ RBodyOp(x, fr, op) ==
 RBodyEnd(x, fr, err) ==
     (* body returned: cleanup, then its commands are applied in order   [callbacks.rs:run_initialized_system] *)
     LET cl == CleanupW(x, fr.kind)
-        items == [ i \in DOMAIN fr.ops |-> [Cmd0 EXCEPT !.c = "op", !.r = fr.r, !.i = i, !.op = fr.ops[i].op, !.ret = fr.ops[i].ret] ]
+        items0 == [ i \in DOMAIN fr.ops |-> [Cmd0 EXCEPT !.c = "op", !.r = fr.r, !.i = i, !.op = fr.ops[i].op, !.ret = fr.ops[i].ret] ]
+        items == SelectSeq(items0, LAMBDA it : it.op[1] # "setlocal")
         late == "cleanup_after_commands" \in Mutants
         q == IF late THEN Append(items, [Cmd0 EXCEPT !.c = "cleanup", !.kind = fr.kind]) ELSE items
         x1 == SetTopF(IF late THEN x ELSE cl.w, [fr EXCEPT !.pc = "post"])
@@ -567,7 +606,7 @@ Quiesce(x) ==
         data |-> ndata,
         missing |-> SeqOfSet({ s \in x.alive : x.storage[s] # "idle" }),
         alive_sys |-> SeqOfSet(x.alive), alive_ent |-> SeqOfSet(x.aliveE),
-        comps |-> comps, res |-> <<x.res[1], x.res[2]>>, elocal |-> <<>>,
+        comps |-> comps, res |-> <<x.res[1], x.res[2]>>, elocal |-> SeqOfSet({ e \in x.aliveE : x.elocal[e] # 0 }),
         tables |-> tables]
 
 DrvRec(x, kind) == [t |-> "drv", step |-> x.step, kind |-> kind]
@@ -598,7 +637,7 @@ StepBody(fr) ==
               IN IF Len(fr.ops) < Len(sc.ops) THEN Emit(RBodyOp(w, fr, sc.ops[Len(fr.ops) + 1]))
                  ELSE Emit(RBodyEnd(w, fr, sc.err))
          ELSE \/ /\ Len(fr.ops) < MaxOps /\ w.budget > 0
-                 /\ FreeOp(w, LAMBDA op : Emit(RBodyOp(w, fr, op)))
+                 /\ FreeOp(w, fr.s, LAMBDA op : Emit(RBodyOp(w, fr, op)))
               \/ \E err \in (IF "err" \in Features THEN {FALSE, TRUE} ELSE {FALSE}) : Emit(RBodyEnd(w, fr, err))
 
 StepR(fr) ==
@@ -624,7 +663,7 @@ StepD(fr) ==
                  IN Emit([w |-> PushF(SetTopF(w, [fr EXCEPT !.pc = "wait"]), QFrame(items, <<>>)), out |-> <<>>])
       [] fr.pc = "free" ->
             \/ /\ Len(fr.issued) < MaxOps /\ w.budget > 0
-               /\ FreeOp(w, LAMBDA op : LET is == IssueW(w, op) IN
+               /\ FreeOp(w, 0, LAMBDA op : LET is == IssueW(w, op) IN
                        Emit([w |-> SetTopF([is.w EXCEPT !.budget = @ - 1], [fr EXCEPT !.issued = Append(@, [op |-> op, ret |-> is.ret])]),
                              out |-> << IssueRec(-w.step, Len(fr.issued) + 1, op, is.ret) >>]))
             \/ /\ Len(fr.issued) > 0
@@ -635,8 +674,8 @@ StepD(fr) ==
 (* a driver step starts when nothing is running *)
 StepIdle ==
     IF Scripted
-    THEN /\ w.step < Len(Prog.steps)
-         /\ LET st == Prog.steps[w.step + 1]
+    THEN /\ w.step < Len(w.prog.steps)
+         /\ LET st == w.prog.steps[w.step + 1]
                 x == [w EXCEPT !.step = @ + 1]
             IN CASE st.kind = "ops" -> Emit([w |-> PushF(x, DFrame(st.ops)), out |-> << DrvRec(x, "ops") >>])
                  [] st.kind = "gc" -> LET g == GcW(x) IN Emit([w |-> PushF(g.w, [DFrame(<<>>) EXCEPT !.pc = "wait"]), out |-> << DrvRec(x, "gc") >> \o g.out])
